@@ -213,7 +213,7 @@ func (o *OvsdbServer) Transact(client *rpc2.Client, args []json.RawMessage, repl
 		}
 	}
 	transactionID := uuid.New()
-	o.processMonitors(transactionID, updates)
+	o.processMonitors(db, transactionID, updates)
 	return o.db.Commit(db, transactionID, updates)
 }
 
@@ -269,7 +269,7 @@ func (o *OvsdbServer) Monitor(client *rpc2.Client, args []json.RawMessage, reply
 		}
 	}
 	*reply = tableUpdates
-	o.monitors[client].monitors[value] = newMonitor(value, request, client)
+	o.monitors[client].monitors[value] = o.bindMonitor(newMonitor(value, request, client), db)
 	return nil
 }
 
@@ -315,7 +315,7 @@ func (o *OvsdbServer) MonitorCond(client *rpc2.Client, args []json.RawMessage, r
 		}
 	}
 	*reply = tableUpdates
-	o.monitors[client].monitors[value] = newConditionalMonitor(value, request, client)
+	o.monitors[client].monitors[value] = o.bindMonitor(newConditionalMonitor(value, request, client), db)
 	return nil
 }
 
@@ -361,7 +361,7 @@ func (o *OvsdbServer) MonitorCondSince(client *rpc2.Client, args []json.RawMessa
 		}
 	}
 	*reply = ovsdb.MonitorCondSinceReply{Found: false, LastTransactionID: "00000000-0000-0000-000000000000", Updates: tableUpdates}
-	o.monitors[client].monitors[value] = newConditionalSinceMonitor(value, request, client)
+	o.monitors[client].monitors[value] = o.bindMonitor(newConditionalSinceMonitor(value, request, client), db)
 	return nil
 }
 
@@ -398,10 +398,24 @@ func (o *OvsdbServer) Echo(client *rpc2.Client, args []interface{}, reply *[]int
 	return nil
 }
 
-func (o *OvsdbServer) processMonitors(id uuid.UUID, update database.Update) {
+// bindMonitor records the database a monitor is for
+func (o *OvsdbServer) bindMonitor(m *monitor, db string) *monitor {
+	m.database = db
+	o.modelsMutex.RLock()
+	if dbModel, ok := o.models[db]; ok {
+		m.schema = dbModel.Schema
+	}
+	o.modelsMutex.RUnlock()
+	return m
+}
+
+func (o *OvsdbServer) processMonitors(db string, id uuid.UUID, update database.Update) {
 	o.monitorMutex.RLock()
 	for _, c := range o.monitors {
 		for _, m := range c.monitors {
+			if m.database != db {
+				continue
+			}
 			switch m.kind {
 			case monitorKindOriginal:
 				m.Send(update)
